@@ -1,0 +1,34 @@
+//go:build verif && !race
+
+package syncx
+
+// Read-only accessors for the verification harness (/verif, property C13).
+// Nothing here is compiled without the build tag `verif`.
+
+import "sync/atomic"
+
+// VerifBlockSize is the constant the Coq model carries.
+const VerifBlockSize = blockSize
+
+// VerifLocal is the state of one P-local part of a pool.
+type VerifLocal struct {
+	Pidx       int
+	HasPrivate bool
+	Shared     int32 // blocks in the shared chain (poolChain.size)
+	Unused     int32 // blocks in the unused chain
+}
+
+// VerifLocals reads every poolLocal. Only meaningful while no other goroutine uses the pool.
+func (p *Pool) VerifLocals() []VerifLocal {
+	n := int(atomic.LoadUintptr(&p.localSize))
+	res := make([]VerifLocal, n)
+	for i := 0; i < n; i++ {
+		l := indexLocal(p.local, i)
+		res[i] = VerifLocal{Pidx: l.pidx, HasPrivate: l.private != nil,
+			Shared: atomic.LoadInt32(&l.shared[shared].size), Unused: atomic.LoadInt32(&l.shared[unused].size)}
+	}
+	return res
+}
+
+// VerifShards is the number of shards of a RWMutex.
+func (m RWMutex) VerifShards() int { return len(m) }
